@@ -162,7 +162,13 @@ def run_impl(case, h):
     pva = pd.Series(list(case['lla']) + list(case['v']) + list(case['rph']), index=LLA_COLS + VEL_COLS + RPH_COLS,
                     name=0.0)
     integ = strapdown.Integrator(pva)
-    integ.integrate(inc)
+    # the increments are integrated in consecutive calls (uneven chunks, fixed by the case): the solution must
+    # not depend on the call history (C02), and a defect that only shows on later calls is exercised here too
+    cuts = [int(len(inc) * q) for q in case.get('chunks', [0.4, 0.75])]
+    prev = 0
+    for c in cuts + [len(inc)]:
+        integ.integrate(inc.iloc[prev:c])
+        prev = c
     m = n + 1
     st = np.hstack([integ.lla[:m], integ.velocity_n[:m], integ.mat_nb[:m].reshape(m, 9)])
     return t, st
@@ -232,13 +238,21 @@ def halving_case(case):
 
 # ---- direct finite-difference consistency of the compiled kernel ---------------------------
 def kernel_step(y, dt, th, dv):
+    """One step of the compiled kernel.  The state is placed at buffer row 1 (offset = 1) below a row of
+    unrelated values and the increment at position 0, so that a kernel that reads any state component at the
+    increment index instead of the buffer index (or from a neighbouring row) is not first-order consistent."""
     from pyins import _numba_integrate as ni
-    lla = np.zeros((2, 3))
-    vel = np.zeros((2, 3))
-    mat = np.zeros((2, 3, 3))
-    lla[0], vel[0], mat[0] = y[:3], y[3:6], np.asarray(y[6:15]).reshape(3, 3)
-    ni.integrate(np.array([dt]), lla, vel, mat, np.array([th], float), np.array([dv], float), 0, True)
-    return np.hstack([lla[1], vel[1], mat[1].ravel()])
+    lla = np.zeros((3, 3))
+    vel = np.zeros((3, 3))
+    mat = np.zeros((3, 3, 3))
+    lla[0] = (-(y[0] * 0.5 + 17.0), y[1] + 31.0, y[2] + 4321.0)
+    vel[0] = (y[4] - 55.0, y[3] + 44.0, -y[5] + 7.0)
+    mat[0] = np.asarray(y[6:15]).reshape(3, 3).T
+    lla[1], vel[1], mat[1] = y[:3], y[3:6], np.asarray(y[6:15]).reshape(3, 3)
+    lla[2] = vel[2] = np.nan
+    mat[2] = np.nan
+    ni.integrate(np.array([dt]), lla, vel, mat, np.array([th], float), np.array([dv], float), 1, True)
+    return np.hstack([lla[2], vel[2], mat[2].ravel()])
 
 
 def fd_case(rng):
